@@ -5,7 +5,9 @@ use super::super::prng::Rng;
 use super::base::*;
 use std::collections::BTreeMap;
 
-pub const STEPS: [&str; 9] = ["contacts", "key", "both", "eab", "restart", "renew0", "renew1", "forget0", "forget1"];
+pub const STEPS: [&str; 9] = [
+	"contacts", "key", "both", "eab", "restart", "renew0", "renew1", "forget0", "forget1",
+];
 
 fn base(n_ep: usize, key: &str, salt: u64) -> Plan {
 	let mut rng = Rng::new(0xF6 ^ salt);
@@ -16,7 +18,12 @@ fn base(n_ep: usize, key: &str, salt: u64) -> Plan {
 			name: Some(format!("on-ep{}", e)),
 			account: "acc".into(),
 			endpoint: format!("ep{}", e),
-			identifiers: vec![IdentCfg { dns: Some(format!("h{}.f6.sim", e)), ip: None, challenge: "http-01".into(), env: BTreeMap::new() }],
+			identifiers: vec![IdentCfg {
+				dns: Some(format!("h{}.f6.sim", e)),
+				ip: None,
+				challenge: "http-01".into(),
+				env: BTreeMap::new(),
+			}],
 			key_type: Some("ecdsa-p256".into()),
 			hooks: names.clone(),
 			..Default::default()
@@ -39,13 +46,25 @@ fn base(n_ep: usize, key: &str, salt: u64) -> Plan {
 		config: Config {
 			global: Global::default(),
 			rate_limits: vec![],
-			endpoints: (0..n_ep).map(|e| EndpointCfg { name: format!("ep{}", e), ca: e, rate_limits: vec![], tos_agreed: true }).collect(),
+			endpoints: (0..n_ep)
+				.map(|e| EndpointCfg {
+					name: format!("ep{}", e),
+					ca: e,
+					rate_limits: vec![],
+					tos_agreed: true,
+				})
+				.collect(),
 			hooks,
 			groups: vec![],
 			accounts: vec![acc],
 			certificates: certs,
 		},
-		cas: (0..n_ep).map(|e| CaCfg { host: format!("ca{}.sim", e), knobs: Knobs::default() }).collect(),
+		cas: (0..n_ep)
+			.map(|e| CaCfg {
+				host: format!("ca{}.sim", e),
+				knobs: Knobs::default(),
+			})
+			.collect(),
 		ops: vec![],
 		faults: vec![],
 		sched,
@@ -55,16 +74,27 @@ fn base(n_ep: usize, key: &str, salt: u64) -> Plan {
 
 fn renew(ops: &mut Vec<Op>, cert: usize) {
 	ops.push(Op::Stop);
-	ops.push(Op::RemoveFile { cert, which: "crt".into() });
+	ops.push(Op::RemoveFile {
+		cert,
+		which: "crt".into(),
+	});
 	// up to three attempts: a renewal that fails once must converge at the next ones
-	ops.push(Op::Run { attempts: 1, max_virtual_s: 3000, only: vec![cert] });
+	ops.push(Op::Run {
+		attempts: 1,
+		max_virtual_s: 3000,
+		only: vec![cert],
+	});
 }
 
 /// Build the op list for a history given as step names.  `k` numbers the edits so that every
 /// edit really changes something.
 pub fn history(n_ep: usize, key0: &str, steps: &[&str], salt: u64) -> Plan {
 	let mut p = base(n_ep, key0, salt);
-	let mut ops = vec![Op::Run { attempts: 1, max_virtual_s: 3000, only: vec![] }];
+	let mut ops = vec![Op::Run {
+		attempts: 1,
+		max_virtual_s: 3000,
+		only: vec![],
+	}];
 	let keys = CHEAP_KEY_TYPES;
 	let mut key_i = keys.iter().position(|k| *k == key0).unwrap_or(0);
 	let mut eab_on = false;
@@ -72,21 +102,39 @@ pub fn history(n_ep: usize, key0: &str, steps: &[&str], salt: u64) -> Plan {
 		match *s {
 			"contacts" => {
 				ops.push(Op::Stop);
-				let cts: Vec<String> = (0..(k % 3)).map(|i| format!("c{}-{}@example.org", k, i)).collect();
-				ops.push(Op::Edit { patch: vec![EditItem::Contacts { account: "acc".into(), contacts: cts }] });
+				let cts: Vec<String> = (0..(k % 3))
+					.map(|i| format!("c{}-{}@example.org", k, i))
+					.collect();
+				ops.push(Op::Edit {
+					patch: vec![EditItem::Contacts {
+						account: "acc".into(),
+						contacts: cts,
+					}],
+				});
 			}
 			"key" => {
 				ops.push(Op::Stop);
 				key_i = (key_i + 1 + k) % keys.len();
-				ops.push(Op::Edit { patch: vec![EditItem::KeyType { account: "acc".into(), key_type: keys[key_i].to_string() }] });
+				ops.push(Op::Edit {
+					patch: vec![EditItem::KeyType {
+						account: "acc".into(),
+						key_type: keys[key_i].to_string(),
+					}],
+				});
 			}
 			"both" => {
 				ops.push(Op::Stop);
 				key_i = (key_i + 1 + k) % keys.len();
 				ops.push(Op::Edit {
 					patch: vec![
-						EditItem::Contacts { account: "acc".into(), contacts: vec![format!("both{}@example.org", k)] },
-						EditItem::KeyType { account: "acc".into(), key_type: keys[key_i].to_string() },
+						EditItem::Contacts {
+							account: "acc".into(),
+							contacts: vec![format!("both{}@example.org", k)],
+						},
+						EditItem::KeyType {
+							account: "acc".into(),
+							key_type: keys[key_i].to_string(),
+						},
 					],
 				});
 			}
@@ -94,26 +142,48 @@ pub fn history(n_ep: usize, key0: &str, steps: &[&str], salt: u64) -> Plan {
 				ops.push(Op::Stop);
 				eab_on = !eab_on;
 				let eab = if eab_on {
-					Some(EabCfg { identifier: format!("kid-{}", k), key: super::super::util::b64u(format!("eab-mac-key-{}", k).as_bytes()), signature_algorithm: None })
+					Some(EabCfg {
+						identifier: format!("kid-{}", k),
+						key: super::super::util::b64u(format!("eab-mac-key-{}", k).as_bytes()),
+						signature_algorithm: None,
+					})
 				} else {
 					None
 				};
-				ops.push(Op::Edit { patch: vec![EditItem::Eab { account: "acc".into(), eab }] });
+				ops.push(Op::Edit {
+					patch: vec![EditItem::Eab {
+						account: "acc".into(),
+						eab,
+					}],
+				});
 			}
 			"restart" => ops.push(Op::Stop),
 			"renew0" => renew(&mut ops, 0),
 			"renew1" => renew(&mut ops, 1 % n_ep),
 			"renew2" => renew(&mut ops, 2 % n_ep),
-			"forget0" => ops.push(Op::CaForget { ca: 0, account: "acc".into() }),
-			"forget1" => ops.push(Op::CaForget { ca: 1 % n_ep, account: "acc".into() }),
+			"forget0" => ops.push(Op::CaForget {
+				ca: 0,
+				account: "acc".into(),
+			}),
+			"forget1" => ops.push(Op::CaForget {
+				ca: 1 % n_ep,
+				account: "acc".into(),
+			}),
 			_ => {}
 		}
 	}
 	// finally every endpoint is renewed (with room to converge) so that the end state is judged
 	for e in 0..n_ep {
 		ops.push(Op::Stop);
-		ops.push(Op::RemoveFile { cert: e, which: "crt".into() });
-		ops.push(Op::Run { attempts: 3, max_virtual_s: 6000, only: vec![e] });
+		ops.push(Op::RemoveFile {
+			cert: e,
+			which: "crt".into(),
+		});
+		ops.push(Op::Run {
+			attempts: 3,
+			max_virtual_s: 6000,
+			only: vec![e],
+		});
 	}
 	p.ops = ops;
 	p.note = format!("F6 {} endpoints, key {}, history {:?}", n_ep, key0, steps);
@@ -125,7 +195,10 @@ pub fn random(rng: &mut Rng) -> Plan {
 	let n_ep = rng.range(1, 3) as usize;
 	let len = rng.range(1, 6) as usize;
 	let mut steps: Vec<&str> = vec![];
-	let pool = ["contacts", "key", "both", "eab", "restart", "renew0", "renew1", "renew2", "forget0", "forget1"];
+	let pool = [
+		"contacts", "key", "both", "eab", "restart", "renew0", "renew1", "renew2", "forget0",
+		"forget1",
+	];
 	for _ in 0..len {
 		steps.push(pool[rng.below(pool.len() as u64) as usize]);
 	}
@@ -182,7 +255,11 @@ pub fn truncation(shape: u64) -> Option<Plan> {
 		steps.push("renew0");
 	}
 	let mut p = history(n_ep, key, &steps, shape);
-	let name = if unicode { "Ünï cødé 账户" } else { "acc" };
+	let name = if unicode {
+		"Ünï cødé 账户"
+	} else {
+		"acc"
+	};
 	if unicode {
 		p.config.accounts[0].name = name.into();
 		for c in p.config.certificates.iter_mut() {
@@ -193,7 +270,9 @@ pub fn truncation(shape: u64) -> Option<Plan> {
 				Op::Edit { patch } => {
 					for it in patch.iter_mut() {
 						match it {
-							EditItem::KeyType { account, .. } | EditItem::Contacts { account, .. } | EditItem::Eab { account, .. } => *account = name.into(),
+							EditItem::KeyType { account, .. }
+							| EditItem::Contacts { account, .. }
+							| EditItem::Eab { account, .. } => *account = name.into(),
 							_ => {}
 						}
 					}
@@ -206,9 +285,15 @@ pub fn truncation(shape: u64) -> Option<Plan> {
 	// drop the final convergence renewals; sweep all truncation offsets instead
 	let keep = p.ops.len() - 3 * n_ep;
 	p.ops.truncate(keep);
-	p.ops.push(Op::TruncateSweep { account: name.into(), step: 1 });
+	p.ops.push(Op::TruncateSweep {
+		account: name.into(),
+		step: 1,
+	});
 	p.sched.max_events = 2_000_000;
-	p.note = format!("F6t shape {} (key {}, {} endpoints, {} superseded keys, unicode {}, eab {})", shape, key, n_ep, past, unicode, eab);
+	p.note = format!(
+		"F6t shape {} (key {}, {} endpoints, {} superseded keys, unicode {}, eab {})",
+		shape, key, n_ep, past, unicode, eab
+	);
 	Some(p)
 }
 
@@ -225,13 +310,39 @@ pub fn crash_mid_save(rng: &mut Rng) -> Plan {
 	let mut p = history(n_ep, &key0, &steps, rng.next_u64());
 	p.sched.chunk = (8, 64);
 	// replace the first Run by a crash at the n-th storage event, then go on
-	let kind = ["fs_open", "fs_write", "net_reply", "hook_exit", "net_send", "net_deliver", "fs_close"][rng.below(7) as usize].to_string();
-	let crash = Op::CrashAt { kind, nth: rng.range(1, 6), max_virtual_s: 3000 };
+	let kind = [
+		"fs_open",
+		"fs_write",
+		"net_reply",
+		"hook_exit",
+		"net_send",
+		"net_deliver",
+		"fs_close",
+	][rng.below(7) as usize]
+		.to_string();
+	let crash = Op::CrashAt {
+		kind,
+		nth: rng.range(1, 6),
+		max_virtual_s: 3000,
+	};
 	// bias: half of the crashes land right after a configuration edit, i.e. inside the traffic
 	// that brings the CA's record into line (account update, key roll-over, their saves)
-	let after_edit: Vec<usize> = p.ops.iter().enumerate().filter(|(_, o)| matches!(o, Op::Edit { .. })).map(|(i, _)| i + 1).collect();
-	let pos = if !after_edit.is_empty() && rng.chance(1, 2) { after_edit[rng.below(after_edit.len() as u64) as usize] } else { rng.below(p.ops.len() as u64) as usize };
+	let after_edit: Vec<usize> = p
+		.ops
+		.iter()
+		.enumerate()
+		.filter(|(_, o)| matches!(o, Op::Edit { .. }))
+		.map(|(i, _)| i + 1)
+		.collect();
+	let pos = if !after_edit.is_empty() && rng.chance(1, 2) {
+		after_edit[rng.below(after_edit.len() as u64) as usize]
+	} else {
+		rng.below(p.ops.len() as u64) as usize
+	};
 	p.ops.insert(pos, crash);
+	// a roll-over that can never succeed again (processed by the CA, the daemon killed before
+	// recording it) is retried in the tight loop: bound the run
+	p.sched.max_events = 30_000;
 	p
 }
 
@@ -251,12 +362,36 @@ pub fn faulted(rng: &mut Rng) -> Plan {
 	let kind = match rng.below(5) {
 		0 => FaultKind::Refuse,
 		1 => FaultKind::ResetAfter,
-		2 => FaultKind::Acme { typ: "unauthorized".into(), status: 403, detail: Some("injected".into()) },
-		3 => FaultKind::Acme { typ: "serverInternal".into(), status: 500, detail: Some("injected".into()) },
-		_ => FaultKind::Http { status: 502, body: "<html>bad gateway</html>".into(), content_type: "text/html".into() },
+		2 => FaultKind::Acme {
+			typ: "unauthorized".into(),
+			status: 403,
+			detail: Some("injected".into()),
+		},
+		3 => FaultKind::Acme {
+			typ: "serverInternal".into(),
+			status: 500,
+			detail: Some("injected".into()),
+		},
+		_ => FaultKind::Http {
+			status: 502,
+			body: "<html>bad gateway</html>".into(),
+			content_type: "text/html".into(),
+		},
 	};
-	let count = if matches!(kind, FaultKind::Acme { ref typ, .. } if typ == "serverInternal") { 12 } else { 1 };
-	p.faults.push(Fault { site: "net".into(), ca: rng.below(n_ep as u64) as usize, class: class.into(), nth: if class == "newAccount" { 2 } else { 1 }, count, kind, ..Default::default() });
+	let count = if matches!(kind, FaultKind::Acme { ref typ, .. } if typ == "serverInternal") {
+		12
+	} else {
+		1
+	};
+	p.faults.push(Fault {
+		site: "net".into(),
+		ca: rng.below(n_ep as u64) as usize,
+		class: class.into(),
+		nth: if class == "newAccount" { 2 } else { 1 },
+		count,
+		kind,
+		..Default::default()
+	});
 	// a request that can never succeed again (e.g. a roll-over whose reply was lost) makes the
 	// daemon retry in its tight loop: bound the run
 	p.sched.max_events = 30_000;
